@@ -1,4 +1,5 @@
 import Hifi.Model.Dynamical
+import Hifi.Model.ViewsDyn
 import Hifi.Drive.Epoch
 /-
   Driver handlers for C07 (ET/TDB): hardware-float model vs implementation (bit-for-bit expected,
@@ -326,7 +327,7 @@ def handle (op : String) (args : List String) (impl : Impl) : Option Ans :=
     -- `+ Unit::Day * (MJD_J1900 + MJD_OFFSET) + prime_epoch_offset`: 2415020.5 days, exactly representable
     let jdeOff : Int := 2415020 * 86400000000000 + 43200000000000
     let m := (toTimeScaleF e ts).map (fun x =>
-      if jde then Dur.add (Dur.add x.dur (Dur.fromTotal jdeOff)) etPrimeOffset else x.dur)
+      if jde then Hifi.Views.toJdeDyn x.dur else x.dur)   -- Model/ViewsDyn.lean (theorem C17.jde_dyn_view_exact)
     -- an epoch HELD in ET or TDB has its instant from the closed form of its own scale (30 ns, C07), so the view
     -- in the other dynamical scale is demanded to 60 ns
     let dynSrc := e.ts == TS.ET || e.ts == TS.TDB
